@@ -2,7 +2,9 @@ package sm2ref
 
 import (
 	"encoding/hex"
+	"encoding/json"
 	"math/big"
+	"os"
 	"testing"
 )
 
@@ -40,4 +42,41 @@ func TestStandardExample(t *testing.T) {
 	if !Mul(N, G).Inf || !Add(Mul(new(big.Int).Sub(N, one), G), G).Inf {
 		t.Fatal("order")
 	}
+}
+
+// Static third-party vectors: signatures made by OpenSSL 3.5 must verify under the reference,
+// and the reference's ZA/e must therefore equal OpenSSL's.
+func TestOpenSSLVectors(t *testing.T) {
+	b, err := os.ReadFile("../../../vectors/sm2_openssl.json")
+	if err != nil {
+		t.Skip("vectors not found: ", err)
+	}
+	var f struct {
+		Vectors []struct{ Priv, Px, Py, Id, Msg, R, S string }
+	}
+	if err := json.Unmarshal(b, &f); err != nil {
+		t.Fatal(err)
+	}
+	for i, v := range f.Vectors {
+		px, py := hx(v.Px), hx(v.Py)
+		pub := Mul(new(big.Int).SetBytes(hx(v.Priv)), G)
+		if !pub.Equal(Point{X: new(big.Int).SetBytes(px), Y: new(big.Int).SetBytes(py)}) {
+			t.Fatalf("vector %d: public key mismatch", i)
+		}
+		za, ok := ZA(hx(v.Id), px, py)
+		if !ok {
+			t.Fatalf("vector %d: id refused", i)
+		}
+		e := E(za, hx(v.Msg))
+		if !Verify(px, py, e, hx(v.R), hx(v.S)) {
+			t.Fatalf("vector %d: OpenSSL signature does not verify under the reference", i)
+		}
+		bad := hx(v.Id)
+		bad[0] ^= 1
+		za2, _ := ZA(bad, px, py)
+		if Verify(px, py, E(za2, hx(v.Msg)), hx(v.R), hx(v.S)) {
+			t.Fatalf("vector %d: verifies with a different id", i)
+		}
+	}
+	t.Logf("%d OpenSSL SM2 vectors verify", len(f.Vectors))
 }
